@@ -319,7 +319,10 @@ func (c *FnCtx) typeFacts(t types.Type, term string) string {
 			}
 		}
 		return or(alts...)
-	case *types.Map, *types.Chan, *types.Signature, *types.Interface:
+	case *types.Chan:
+		// chan_ty: channels of different element types are different channels
+		return fmt.Sprintf("(and (>= %[1]s 0) (=> (not (= %[1]s 0)) (= (chan_ty %[1]s) %[2]d)))", term, goTypeTag(u.Elem()))
+	case *types.Map, *types.Signature, *types.Interface:
 		return "(>= " + term + " 0)"
 	}
 	return "true"
